@@ -20,6 +20,8 @@ const Preamble = `(set-option :produce-models true)
 (define-fun nil-slice () Slice (mk-slice Null 0 0 0))
 (declare-fun at_ (Slice Int) Loc)
 (assert (forall ((s Slice) (i Int)) (! (= (at_ s i) (Elem (sl.base s) (+ (sl.off s) i))) :pattern ((at_ s i)))))
+(declare-fun content_ ((Array Loc Int) Slice) (Array Int Int))
+(assert (forall ((h (Array Loc Int)) (s Slice) (i Int)) (! (= (select (content_ h s) i) (select h (at_ s i))) :pattern ((select (content_ h s) i)))))
 (declare-datatypes ((Iface 0)) (((mk-iface (if.tag Int) (if.ptr Loc)))))
 (define-fun nil-iface () Iface (mk-iface 0 Null))
 (declare-sort Str 0)
